@@ -314,4 +314,88 @@ theorem hashRenders_inj_aux (hlen : ∀ b, (sha b).length = 64) (S : Bytes → P
            hashRenders_inj_aux hlen S hS xs ys hs.2 hw.2.2 ca.2 cb.2 h2⟩
 end
 
+/-! ### `hash_value` respects what Python cannot tell apart; raw keys -/
+
+mutual
+theorem hashValue_resp : ∀ a b : PyVal, PyEqH a b → hashValue sha a = hashValue sha b
+  | .tuple xs, b, h => by
+    cases b with
+    | tuple ys => simp only [PyEqH] at h; simp only [hashValue, hashRenders_resp xs ys h]
+    | _ => simp_all [PyEqH]
+  | .list xs, b, h => by
+    cases b with
+    | list ys => simp only [PyEqH] at h; simp only [hashValue, hashRenders_resp xs ys h]
+    | _ => simp_all [PyEqH]
+  | .none, b, h => by cases b <;> simp_all [PyEqH, PyVal.kind, hashValue, PyVal.numHash]
+  | .bool _, b, h => by cases b <;> simp_all [PyEqH, PyVal.kind, hashValue, PyVal.numHash]
+  | .int _, b, h => by cases b <;> simp_all [PyEqH, PyVal.kind, hashValue, PyVal.numHash]
+  | .float _, b, h => by cases b <;> simp_all [PyEqH, PyVal.kind, hashValue, PyVal.numHash]
+  | .str _, b, h => by cases b <;> simp_all [PyEqH, PyVal.kind, hashValue, PyVal.numHash]
+  | .bytes _, b, h => by cases b <;> simp_all [PyEqH, PyVal.kind, hashValue, PyVal.numHash]
+  | .path _, b, h => by cases b <;> simp_all [PyEqH, PyVal.kind, hashValue, PyVal.numHash]
+theorem hashRenders_resp : ∀ xs ys : List PyVal, PyEqHL xs ys → hashRenders sha xs = hashRenders sha ys
+  | [], [], _ => rfl
+  | [], _ :: _, h => by simp [PyEqHL] at h
+  | _ :: _, [], h => by simp [PyEqHL] at h
+  | x :: xs, y :: ys, h => by
+    simp only [PyEqHL] at h
+    simp only [hashRenders, hashValue_resp x y h.1, hashRenders_resp xs ys h.2]
+end
+
+/-! signatures -/
+
+theorem rawKey_task (b p : Str) :
+    rawKey sha Generated.sigTaskFields (envTask b p) = sha (utf8 b) ++ sha (utf8 p) := by
+  simp [rawKey, Generated.sigTaskFields, envTask, hashValue, HV.render]
+
+theorem rawKey_pathnode (n p : Str) :
+    rawKey sha Generated.sigPathNodeFields (envPathNode n p) = sha (utf8 p) := by
+  simp [rawKey, Generated.sigPathNodeFields, envPathNode, hashValue, HV.render]
+
+theorem rawKey_picklenode (n p : Str) :
+    rawKey sha Generated.sigPickleNodeFields (envPathNode n p) = sha (utf8 p) := by
+  simp [rawKey, Generated.sigPickleNodeFields, envPathNode, hashValue, HV.render]
+
+theorem rawKey_taskw (n : Str) :
+    rawKey sha Generated.sigTaskWithoutPathFields (envTaskWithoutPath n) = sha (utf8 n) := by
+  simp [rawKey, Generated.sigTaskWithoutPathFields, envTaskWithoutPath, hashValue, HV.render]
+
+theorem rawKey_dirnode (n : Str) (r : Option Str) (pat : Str) :
+    rawKey sha Generated.sigDirNodeFields (envDirNode n r pat) =
+      (hashValue sha (optPath r)).render ++ sha (utf8 pat) := by
+  simp [rawKey, Generated.sigDirNodeFields, envDirNode, hashValue, HV.render.eq_2]
+
+theorem rawKey_python (ni : NodeInfo) :
+    rawKey sha Generated.sigPythonNodeFields (envNodeInfo ni) =
+      sha (utf8 ni.argName) ++ ((hashValue sha (.tuple ni.treePath)).render ++ (sha (utf8 ni.taskName) ++
+        (hashValue sha (optPath ni.taskPath)).render)) := by
+  simp [rawKey, Generated.sigPythonNodeFields, envNodeInfo, hashValue, HV.render.eq_2]
+
+theorem rawKey_memo (p : Str) (mh : Int) :
+    rawKey sha Generated.memoKeyFields (envMemo p mh) = sha (utf8 p) ++ decInt mh := by
+  simp [rawKey, Generated.memoKeyFields, envMemo, hashValue, HV.render]
+
+/-! ### signatures -/
+
+/-- coverage of a signature / memo raw key: the hashed fields and the raw key itself lie in `S`. -/
+def SigCovers (S : Bytes → Prop) (fields : List String) (env : String → PyVal) : Prop :=
+  (∀ f ∈ fields, Covers sha S (env f)) ∧ S (utf8 (rawKey sha fields env))
+
+theorem sha_utf8_inj {S : Bytes → Prop} (hS : InjOn sha S) {s t : Str} (hs : S (utf8 s)) (ht : S (utf8 t))
+    (h : sha (utf8 s) = sha (utf8 t)) : s = t := utf8_inj (hS _ _ hs ht h)
+
+theorem noneConst_len : (decInt Generated.hashNoneConst).length = 10 := by decide
+
+theorem optPath_render_len (hlen : ∀ b, (sha b).length = 64) (r : Option Str) :
+    (hashValue sha (optPath r)).render.length = if r.isSome then 64 else 10 := by
+  cases r <;> simp [optPath, hashValue, HV.render, hlen, noneConst_len]
+
+theorem optPath_render_inj (hlen : ∀ b, (sha b).length = 64) {S : Bytes → Prop} (hS : InjOn sha S)
+    {r1 r2 : Option Str} (c1 : Covers sha S (optPath r1)) (c2 : Covers sha S (optPath r2))
+    (h : (hashValue sha (optPath r1)).render = (hashValue sha (optPath r2)).render) : r1 = r2 := by
+  have hl := congrArg List.length h
+  rw [optPath_render_len sha hlen, optPath_render_len sha hlen] at hl
+  cases r1 <;> cases r2 <;> simp_all [optPath, hashValue, HV.render, Covers]
+  exact sha_utf8_inj sha hS c1 c2 h
+
 end Pytask.Hash
